@@ -593,6 +593,10 @@ func (t *fnTrans) call(in ssa.Instruction, cc *ssa.CallCommon, res ssa.Value) {
 	// callee read it: an access to the field as far as its guard is concerned
 	if _, isBuiltin := cc.Value.(*ssa.Builtin); !isBuiltin {
 		for _, a := range cc.Args {
+			if pl := t.pointeeLoc(a); pl != nil {
+				// the callee may read what the guarded pointer points to
+				t.guardAccess(pl, false, in.Pos())
+			}
 			if fa, ok := a.(*ssa.FieldAddr); ok {
 				if l := t.locs[fa]; l != nil && l.kind == locCell && l.owner != "" {
 					if _, isSt := t.isStruct(l.typ); isSt && !isSyncType(l.typ) {
